@@ -571,7 +571,15 @@ void op_union(Ctx<T>& c, const Op& op) {
   bool u_deser_sampling = false;
   if (mode & 32) {  // a used and reset union behaves like a fresh one
     try { u.update(c.slots[in[0]].sk); } catch (const std::logic_error& e) { classify_union_throw(e, false, "union.update()", union_tie_shape(u)); }
+    if (mode & 16) {
+      // ... also when its first life went deep into sampling mode (more items than max_k, so the gadget carried a reservoir weight)
+      var_opt_sketch<T> filler(static_cast<uint32_t>(max_k + 8));
+      for (uint64_t i = 0; i < max_k + 8; ++i) filler.update(Codec<T>::make(900000000ull + i), 3.0 + static_cast<double>(i % 4));
+      try { u.update(filler); } catch (const std::logic_error& e) { classify_union_throw(e, false, "union.update()", union_tie_shape(u)); }
+      G->labels.insert("union-reset-after-sampling");
+    }
     u.reset();
+    if (mode & 64) u.reset();   // resetting twice is resetting once
     G->labels.insert("union-reset-reuse");
   }
   Model rm; rm.k = static_cast<uint32_t>(max_k); rm.stream = false; rm.exact = false;
